@@ -2,8 +2,8 @@
     correspondence (KmipCodec.kmip_marshal / kmip_unmarshal, both at the fixed fuel FUEL), with
     hypotheses on the MESSAGE only: conformance (conf_ty), ranges (val_ranged) and size. *)
 From Coq Require Import ZArith List Bool String Lia PeanoNat.
-From KV Require Import Base BaseProofs Wire WireProofs Cursor Schema SchemaSem FaithfulProofs Roundtrip RoundtripProofs
-  FixpointProofs KmipCodec KmipRoundtrip EncFuel EncFuelProofs EncRangeProofs.
+From KV Require Import Base BaseProofs Wire WireProofs Cursor CursorProofs BinCursorProofs Schema SchemaSem FaithfulProofs Roundtrip RoundtripProofs
+  FixpointProofs KmipCodec KmipRoundtrip DecSafe DecSafeProofs DecTerm DecTermProofs EncFuel EncFuelProofs EncRangeProofs DecFuelProofs.
 From KVGen Require Import KmipSchema.
 Import ListNotations.
 Open Scope Z_scope.
@@ -83,4 +83,83 @@ Proof.
     - eapply enc_ty_mono; [exact Hle | exact He].
     - rewrite enc_ty_at_depth by exact Hd. rewrite <- (enc_ty_at_depth kmip_schema f) by lia. exact He. }
   unfold kmip_marshal, kmip_items. rewrite Ed, He2. cbn [bind fst]. rewrite (items_ok_quiet _ Hok). reflexivity.
+Qed.
+
+(** ---------------------------------------------------------------------------------------
+    With the fuel stability of the DECODER (DecFuelProofs.v) and its termination bound
+    (DecTermProofs.v) the size hypothesis is on the BYTES alone: the struct-level round trip
+    gives the value back at some large decoder fuel; the decoder does not exhaust FUEL on
+    these bytes; so its result at FUEL is that value.  ([kmip_marshal = Ok] already says that
+    the encoder had enough fuel.) *)
+Lemma items_bytes_ok l : forallb item_ok l = true -> bytes_ok (wire_enc_list l) = true.
+Proof.
+  intros H. unfold wire_enc_list. apply bytes_ok_flat_map. apply (forallb_Forall_impl item_ok); [|exact H].
+  apply Forall_forall. intros i _. apply bytes_ok_wire_enc.
+Qed.
+
+Lemma kmip_roundtrip_unless_fuel root d v bytes sc fc :
+  find_tdef kmip_schema root = Some d ->
+  kmip_marshal root v = Ok bytes ->
+  conf_ty kmip_schema kmip_ops kmip_attrs kmip_objs fc None (TNamed root) (t_deftag d) v = Some sc ->
+  val_ranged kmip_schema (TNamed root) v = true ->
+  len bytes < 2 ^ 32 ->
+  bytes_ok bytes = true /\ (kmip_unmarshal root bytes <> OutOfFuel -> kmip_unmarshal root bytes = Ok v).
+Proof.
+  intros Ed Hm Hc Hr Hlen.
+  destruct (kmip_marshal_inv _ _ _ _ Ed Hm) as (items & st' & He & _ & ->).
+  assert (Hok : forallb item_ok items = true).
+  { eapply (enc_ty_ranged kmip_schema kmip_schema_rng_ok); [|exact He | exact Hr].
+    eapply deftag_ok; [exact kmip_schema_rng_ok | exact Ed]. }
+  split; [apply items_bytes_ok, Hok|].
+  assert (Hsm : forallb item_small items = true) by (apply items_small_of_len, Hlen).
+  destruct (bin_roundtrip kmip_schema kmip_ops kmip_attrs kmip_objs FUEL fc None (TNamed root) (t_deftag d) v items st' sc He Hc Hok Hsm eq_refl)
+    as (c & Hcur & Hdec).
+  unfold kmip_unmarshal. rewrite Hcur. cbn [bind]. unfold kmip_dec. rewrite Ed. intros Hn.
+  specialize (Hdec (FUEL + 2 * items_size items + 2)%nat (Nat.le_refl _)).
+  rewrite (dec_ty_stable kmip_schema kmip_ops kmip_attrs kmip_objs bin_fmt FUEL (FUEL + 2 * items_size items + 2)) in Hdec.
+  - rewrite Hdec. reflexivity.
+  - lia.
+  - intros E. apply Hn. rewrite E. reflexivity.
+Qed.
+
+(** any root structure of the schema: static depth of the type (DecTerm.bound) plus two units
+    per 8 bytes within FUEL *)
+Theorem kmip_marshal_unmarshal_bytes root d v bytes sc fc :
+  find_tdef kmip_schema root = Some d ->
+  kmip_marshal root v = Ok bytes ->
+  conf_ty kmip_schema kmip_ops kmip_attrs kmip_objs fc None (TNamed root) (t_deftag d) v = Some sc ->
+  val_ranged kmip_schema (TNamed root) v = true ->
+  decodable kmip_schema (TNamed root) = true ->
+  (bound kmip_schema kmip_ops kmip_attrs kmip_objs (TNamed root) + 2 * (List.length bytes / 8) <= FUEL)%nat ->
+  kmip_unmarshal root bytes = Ok v.
+Proof.
+  intros Ed Hm Hc Hr Hdec Hsz.
+  assert (Hlen : len bytes < 2 ^ 32).
+  { pose proof FUEL_Z as HF. pose proof (Nat.div_mod_eq (List.length bytes) 8) as Hdm.
+    pose proof (Nat.mod_upper_bound (List.length bytes) 8 ltac:(discriminate)) as Hmod.
+    unfold len. set (q := (List.length bytes / 8)%nat) in *. set (r := (List.length bytes mod 8)%nat) in *. lia. }
+  destruct (kmip_roundtrip_unless_fuel _ _ _ _ _ _ Ed Hm Hc Hr Hlen) as [Hb Hrt]. apply Hrt.
+  unfold kmip_unmarshal.
+  destruct (bin_cursor bytes) as [c| | |] eqn:E; cbn [bind]; try discriminate.
+  - unfold kmip_dec. rewrite Ed. apply bind_neq_oof; [|intros; discriminate].
+    apply dec_ty_terminates; [exact bin_fmt_total | exact kmip_schema_acyclic | exact Hdec|].
+    pose proof (bin_cursor_size bytes c Hb E) as Hcs. unfold K_ELEM. lia.
+  - unfold bin_cursor in E.
+    pose proof (c_open_safe (fst (bin_forest (Datatypes.S (List.length bytes)) bytes)) (snd (bin_forest (Datatypes.S (List.length bytes)) bytes))) as Ho.
+    rewrite E in Ho. destruct Ho.
+Qed.
+
+(** request and response messages: up to 11775 bytes *)
+Theorem kmip_message_marshal_unmarshal root d v bytes sc fc :
+  (root = "kmip.RequestMessage" \/ root = "kmip.ResponseMessage")%string ->
+  find_tdef kmip_schema root = Some d ->
+  kmip_marshal root v = Ok bytes ->
+  conf_ty kmip_schema kmip_ops kmip_attrs kmip_objs fc None (TNamed root) (t_deftag d) v = Some sc ->
+  val_ranged kmip_schema (TNamed root) v = true ->
+  len bytes <= 11775 ->
+  kmip_unmarshal root bytes = Ok v.
+Proof.
+  intros Hroot Ed Hm Hc Hr Hlen.
+  destruct (kmip_roundtrip_unless_fuel _ _ _ _ _ _ Ed Hm Hc Hr ltac:(lia)) as [Hb Hrt]. apply Hrt.
+  apply kmip_unmarshal_terminates_11k; assumption.
 Qed.
